@@ -29,10 +29,10 @@ impl Monitor for C06 {
         "C06"
     }
     fn gens(&self, tier: Tier) -> Vec<Gen> {
-        vec![gen("single-fault", tier.pick(600, 200_000, 3)), gen("double-fault", tier.pick(60, 30_000, 0)), gen("expiry", tier.pick(300, 50_000, 2))]
+        vec![gen("single-fault", tier.pick(600, 200_000, 3)), gen("double-fault", tier.pick(60, 30_000, 0)), gen("expiry", tier.pick(300, 50_000, 2)), gen("long-silence", tier.pick(54, 2_000, 0))]
     }
     fn rule(&self) -> String {
-        "single-fault: a base history of 3-10 transactions over {silent, RX1 hit, RX2 hit, invalid frame, garbage, Class C downlink, confirmed+ACK, confirmed silent, oversized frame in RX1/RX2 (also after a confirmed uplink)} is first run fault-free to count its K radio calls, then re-run K times with a radio error injected at call k (tx/setup_rx/rx_single/rx_continuous/low_power, nb: TxRequest/RxRequest/CancelRx/Phy), the application carrying on with the next sends; double-fault: two fault positions; expiry: sessions starting at 2^32-4..2^32-1. Every data frame handed to the radio is decoded by the reference codec; counters must be strictly increasing until SessionExpired. Class = (front-end, history shape, fault call kind, fault position class, start class).".into()
+        "single-fault: a base history of 3-10 transactions over {silent, RX1 hit, RX2 hit, invalid frame, garbage, Class C downlink, confirmed+ACK, confirmed silent, oversized frame in RX1/RX2 (also after a confirmed uplink)} is first run fault-free to count its K radio calls, then re-run K times with a radio error injected at call k (tx/setup_rx/rx_single/rx_continuous/low_power, nb: TxRequest/RxRequest/CancelRx/Phy), the application carrying on with the next sends; double-fault: two fault positions; expiry: sessions starting at 2^32-4..2^32-1; long-silence: 100-170 unanswered uplinks in a row (the ADR back-off bookkeeping at 64/96/128 unanswered uplinks, at the data-rate floor). Every data frame handed to the radio is decoded by the reference codec; counters must be strictly increasing until SessionExpired. Class = (front-end, history shape, fault call kind, fault position class, start class).".into()
     }
     fn assumptions(&self) -> Vec<String> {
         vec![
@@ -70,6 +70,23 @@ impl Monitor for C06 {
                         let a = rng.below(k_calls as u64) as usize;
                         let b = rng.below(k_calls as u64) as usize;
                         run_history(front, reg, start, &steps, &[a.min(b), a.max(b) + 1], seed, col, "double");
+                    }
+                }
+            }
+            "long-silence" => {
+                // 100-170 uplinks in a row that nobody answers (ADR is on by default: the back-off
+                // bookkeeping at 64, 96, 128, ... unanswered uplinks runs at the data-rate floor too),
+                // with the odd hit or rejected frame in between
+                let start = *rng.pick(&[0u32, 0xFFA0, 0x1_FFA0]);
+                let n = rng.range(100, 171) as usize;
+                let steps: Vec<Step> = (0..n).map(|i| if i > 0 && i % 97 == 0 { *rng.pick(&[Step::Invalid, Step::Garbage, Step::ConfSilent]) } else { Step::Silent }).collect();
+                let seed = rng.next_u64();
+                col.event("long_silence_histories");
+                let base = run_history(front, reg, start, &steps, &[], seed, col, "none");
+                if let Some(k) = base {
+                    if k > 0 && rng.bool() {
+                        let f = rng.below(k as u64) as usize;
+                        run_history(front, reg, start, &steps, &[f], seed, col, "single");
                     }
                 }
             }
